@@ -37,7 +37,7 @@ class Broken(Exception):
 
 def sh(cmd, cwd=None, env=None, timeout=None, stdin=None, check=False):
     p = subprocess.run(cmd, cwd=cwd, env=env, timeout=timeout, input=stdin,
-                       stdout=subprocess.PIPE, stderr=subprocess.STDOUT, text=True,
+                       stdout=subprocess.PIPE, stderr=subprocess.STDOUT, text=True, errors="replace",
                        shell=isinstance(cmd, str))
     if check and p.returncode != 0:
         raise Broken("command failed: %s" % (cmd if isinstance(cmd, str) else " ".join(cmd)), p.stdout[-4000:])
